@@ -1,0 +1,23 @@
+//! Hooks for an out-of-crate verification harness. Compiled only with the cargo feature `verif`
+//! (off by default). An event sink: instrumented points call `emit`, which appends to a global,
+//! totally ordered log when a harness has enabled it, and does nothing otherwise.
+use std::sync::Mutex;
+
+static LOG: Mutex<Option<Vec<String>>> = Mutex::new(None);
+
+/// Starts recording events (clears any previous log).
+pub fn start() {
+    *LOG.lock().unwrap() = Some(vec![]);
+}
+
+/// Stops recording and returns the events in the order they were emitted.
+pub fn take() -> Vec<String> {
+    LOG.lock().unwrap().take().unwrap_or_default()
+}
+
+/// Appends an event to the log if recording is on.
+pub fn emit(event: impl FnOnce() -> String) {
+    if let Some(log) = LOG.lock().unwrap().as_mut() {
+        log.push(event());
+    }
+}
